@@ -5,11 +5,16 @@
      STAT = sok | (zCODE xMSG OPT) OPS = ((sadd|sset xK xV) ...)       backend handler script
      MAR  = ((nID REGISTERED (sok xBYTES)|(serr xTEXT)) ...)           codec library, reply value
      FAIL = snone | sclosedlocal | sclosedremote | sdial | sduring
+          | (sredial PHASE REACHABLE REDIAL-ENABLED)   forwarder = a client session dialled with
+            RedialTimes (0 = not enabled); PHASE = snone | sbefore | satwrite | sduring | safter:
+            where the backend connection is cut relative to the forwarded request
      FWD  = snone | (IS-THE-SHARED-CONN-CLOSED-OBJECT STAT)            what the forwarder returned
    observations = (DIRECT PROXIED (nFORWARDS xLABEL-REALIP xLABEL-METHOD) SENTINELS-UNCHANGED)
      DIRECT/PROXIED = (CALLER (nARRIVED nINVOKED SEEN))
      CALLER = (STAT xRESULT nREPLYCODEC META) for a call, (STAT) for a push
-     SEEN = snone | (xARG nCODEC META xREALIP)                                        *)
+     SEEN = snone | (xARG nCODEC META xREALIP)
+   a redial case has a fifth observation (STAT xRESULT nARRIVED nFORWARDS): the proxied call
+   of /b/raw "again" sent afterwards over the same forwarder session                       *)
 From Coq Require Import Strings.String Strings.Byte.
 From Coq Require Import List Arith NArith ZArith Bool Lia.
 From Verif Require Import Base.Bytes Base.Val Model.Proxy.
@@ -150,11 +155,60 @@ Definition failure_of (fail fwd : val) : option failure :=
        | _ => None
        end.
 
+(* the redial cases: phase of the cut *)
+Definition cut_of (push : bool) (v : val) : option cut :=
+  if sym_eqb v "none" then Some CNone
+  else if sym_eqb v "before" then Some CBefore
+  else if sym_eqb v "atwrite" then Some CAtWrite
+  else if sym_eqb v "during" then Some CDuring
+  else if sym_eqb v "after" then Some CAfter
+  else None.
+
+Definition sref_of (fwd : val) : sref :=
+  match fwd with
+  | VL [shared; st] =>
+      match bool_of shared, stat_of st with
+      | Some false, Some (Some s) => SFresh s
+      | _, _ => SShared idx_conn_closed
+      end
+  | _ => SShared idx_conn_closed
+  end.
+
+Definition again_body : bytes := str "again".
+Definition again_rq : request := mkReq (str "/b/raw") again_body 115 [].
+Definition again_backend (reg : N -> bool) : peer :=
+  backend_peer (inl again_body) (mkHres None 0 [] (fun _ => inl again_body)) reg.
+
+Definition run_redial (v : variant) (push : bool) (rq : request) (caller : bytes) (be px fw : peer)
+  (reg : N -> bool) (direct : val) (label_ip : bytes) (c : cut) (reach enabled : bool) (r : sref)
+  : val :=
+  let cl := mkClient enabled true in
+  let ft := mkFault c reach r in
+  let pa := str "PROXY" in
+  let p := if push then proxied_push_client v initial_heap px fw be caller pa cl ft rq
+           else proxied_call_client v false initial_heap px fw be caller pa cl ft rq in
+  let label := match px_forwards p with
+               | _ :: _ => VL [VN (N.of_nat (length (px_forwards p))); VB label_ip; VB (rq_method rq)]
+               | [] => VL [VN 0; VB []; VB []]
+               end in
+  let cl2 := match px_forwards p with
+             | [] => cl
+             | _ => mkClient enabled (link_after cl ft)
+             end in
+  let ft2 := mkFault CNone reach (SShared idx_conn_closed) in
+  let p2 := proxied_call_client v false (px_heap p) px fw (again_backend reg) caller pa cl2 ft2 again_rq in
+  VL [direct;
+      VL [v_caller push (px_reply p); v_backend (px_arrived p) (px_seen p)];
+      label;
+      vbool (heap_eqb (px_heap p2) initial_heap);
+      VL [v_stat (rp_stat (px_reply p2)); VB (rp_body (px_reply p2));
+          VN (N.of_nat (px_arrived p2)); VN (N.of_nat (length (px_forwards p2)))]].
+
 Definition run_with (v : variant) (inp : val) : option val :=
   match inp with
   | VL [push; VB method; VB body; VN codec; VL m; VB caller; dec; st; VN setc; VL ops; VL mar; fail; fwd] =>
-      match bool_of push, meta_of m, res_of dec, stat_of st, ops_of ops, mar_of mar, failure_of fail fwd with
-      | Some push, Some m, Some dec, Some st, Some ops, Some mar, Some fl =>
+      match bool_of push, meta_of m, res_of dec, stat_of st, ops_of ops, mar_of mar with
+      | Some push, Some m, Some dec, Some st, Some ops, Some mar =>
           let reg := mar_reg mar in
           let h := mkHres st setc ops (mar_body mar) in
           let be := backend_peer dec h reg in
@@ -164,6 +218,19 @@ Definition run_with (v : variant) (inp : val) : option val :=
           let direct :=
             if push then VL [v_caller true (mkReply None [] 0 []); v_backend 1 (serve_push be caller rq)]
             else let '(rp, seen) := direct_call be caller rq in VL [v_caller false rp; v_backend 1 seen] in
+          match fail with
+          | VL [tag; phase; reach; enabled] =>
+              if sym_eqb tag "redial" then
+                match cut_of push phase, bool_of reach, bool_of enabled with
+                | Some c, Some reach, Some enabled =>
+                    Some (run_redial v push rq caller be px fw reg direct (label_real_ip m caller)
+                                     c reach enabled (sref_of fwd))
+                | _, _, _ => None
+                end
+              else None
+          | _ =>
+          match failure_of fail fwd with
+          | Some fl =>
           let p := if push then proxied_push v initial_heap px fw be caller (str "PROXY") fl rq
                    else proxied_call v initial_heap px fw be caller (str "PROXY") fl rq in
           let label := match px_forwards p with
@@ -175,7 +242,10 @@ Definition run_with (v : variant) (inp : val) : option val :=
                     VL [v_caller push (px_reply p); v_backend (px_arrived p) (px_seen p)];
                     label;
                     vbool (heap_eqb (px_heap p) initial_heap)])
-      | _, _, _, _, _, _, _ => None
+          | None => None
+          end
+          end
+      | _, _, _, _, _, _ => None
       end
   | _ => None
   end.
